@@ -1,12 +1,13 @@
 (** C08 — Execution has no side effects on caller data and stack items never alias.
     In the model (model/Interp.v) stack items are immutable values and the scripts / transaction are
     inputs that [engine_execute] does not return, so "the caller's bytes are unchanged" is decided by the
-    correspondence harness (byte-for-byte comparison of the caller-held buffers before/after) — the
-    model cannot express a write through a shared backing array.  What the model carries, for all
-    stacks and all operands, is the frame property of every handler. *)
+    correspondence harness (byte-for-byte comparison of the caller-held buffers before/after).  What the
+    value model carries, for all stacks and all operands, is the frame property of every handler (first part
+    of this file); sharing — items as slices of backing arrays, the caller's scripts among them — is the
+    subject of model/Heap.v and of the second part. *)
 From Coq Require Import List NArith ZArith.
 From Coq Require Import Strings.Byte.
-From GoBT Require Import lib.Bytes model.ScriptNum model.Interp proofs.InterpTotal proofs.InterpFrame.
+From GoBT Require Import lib.Bytes model.ScriptNum model.Interp model.Heap proofs.InterpTotal proofs.InterpFrame proofs.HeapRefine.
 Import ListNotations.
 
 (** every non-signature opcode other than OP_ROLL touches only the top [arity] items of the data stack:
@@ -48,6 +49,74 @@ Print Assumptions C08_altstack_frame.
 Theorem C08_frame_rel_mono : forall k k' d d', (k <= k')%nat -> frame_rel k d d' -> frame_rel k' d d'.
 Proof. exact frame_rel_mono. Qed.
 Print Assumptions C08_frame_rel_mono.
+
+(** * The sharing model (model/Heap.v): stack items are slices of backing arrays, as Go holds them.
+    The statements below are about the machine that moves, duplicates and cuts SLICES (DUP, OVER, PICK, TUCK share
+    storage; a data push is a view of the caller's script; OP_SPLIT pushes two views of its operand; OP_BIN2NUM
+    may push its operand itself) and allocates a new array for every computed result. *)
+
+(** no opcode ever writes to an array that exists: the heap after a step is the heap before it plus new arrays *)
+Theorem C08_no_opcode_writes_to_existing_storage : forall c sc off p s d' hs hs',
+  rebuild c sc off p s d' hs = Some hs' -> extends (h_heap hs) (h_heap hs').
+Proof. exact rebuild_extends. Qed.
+Print Assumptions C08_no_opcode_writes_to_existing_storage.
+
+(** C08, both sentences, for every pair of scripts, flag word and context: whenever the sharing machine follows the
+    value machine to the end ([HRes]), the verdict is the value machine's; the slices of EVERY snapshot, read in the
+    FINAL heap, give exactly the value machine's snapshot of that step — so no item's bytes ever change after it was
+    pushed, whatever was later done to items that share its storage; and arrays 0 and 1 of the heap, the caller's
+    unlocking and locking script buffers, hold at the end what they held at the start *)
+Theorem C08_sharing_machine_refines_value_machine : forall so i v sn h,
+  h_engine_execute so i = HRes v sn h ->
+  engine_execute so i = (v, map (abs_snap h) sn) /\
+  nth 0 h [] = ei_unlock i /\ nth 1 h [] = ei_lock i.
+Proof. exact h_engine_execute_refines. Qed.
+Print Assumptions C08_sharing_machine_refines_value_machine.
+
+(** the same, item by item: what the k-th snapshot's slices read at the very end is what the value machine had then *)
+Theorem C08_item_never_changes : forall so i v sn h k d a,
+  h_engine_execute so i = HRes v sn h -> nth_error sn k = Some (d, a) ->
+  exists s, nth_error (snd (engine_execute so i)) k = Some s /\ map (rd h) d = sn_ds s /\ map (rd h) a = sn_as s.
+Proof. exact item_never_changes. Qed.
+Print Assumptions C08_item_never_changes.
+
+(** every slice of every snapshot lies inside its array *)
+Theorem C08_slices_in_bounds : forall so i v sn h,
+  h_engine_execute so i = HRes v sn h -> Forall (fun x => all_in h (fst x) /\ all_in h (snd x)) sn.
+Proof. exact h_engine_execute_in_bounds. Qed.
+Print Assumptions C08_slices_in_bounds.
+
+(** ... and the sharing machine does follow: on a non-signature opcode it is never stuck, i.e. moving / duplicating /
+    cutting slices and allocating results as the Go handlers do reads back exactly the value machine's stacks
+    (naturality of the stack primitives in the item type, the frame property of the other handlers, OP_SPLIT and
+    OP_BIN2NUM by computation).  The hypothesis on data pushes says that the parsed opcode's data is the bytes at its
+    place in the script buffer, which is how the parser cuts it. *)
+Theorem C08_sharing_machine_never_stuck : forall so c sc off p idx s hs,
+  is_sigop (p_val p) = false ->
+  reads hs (ds s) (als s) = true -> in_bounds (h_heap hs) sc = true ->
+  ((p_val p <=? OP_PUSHDATA4)%N = true -> (0 <? p_val p)%N = true ->
+   rd (h_heap hs) (sub sc (off + data_off p) (length (p_data p))) = p_data p /\
+   in_bounds (h_heap hs) (sub sc (off + data_off p) (length (p_data p))) = true) ->
+  (1 <= length (h_heap hs))%nat ->
+  h_step so c sc off p idx s hs <> HStuck.
+Proof. exact h_step_not_stuck. Qed.
+Print Assumptions C08_sharing_machine_never_stuck.
+
+(** non-vacuity of the sharing statements: DUP / SPLIT / CAT / alt-stack traffic on a value pushed from the unlocking
+    script runs to the end ([HRes], not stuck), the duplicate and the two halves of the split are views of the
+    caller's unlocking script (array 0), and the concatenation is a new array *)
+Example C08_sharing_example :
+  match h_engine_execute no_sigops
+          (mkExecInput [x02; x01; x80; x76] [x76; x81; x75; x51; x7f; x7e; x7c; x6b; x6c; x82] 16384 false false 0 0 0) with
+  | HRes v sn h =>
+      v = VOk /\ length sn = 12%nat /\
+      nth_error sn 1 = Some ([mkSl 0 1 2; mkSl 0 1 2], []) /\                          (* DUP: two views of the script *)
+      nth_error sn 6 = Some ([mkSl 0 1 2; mkSl 0 1 1; mkSl 0 2 1], []) /\               (* SPLIT: two views *)
+      nth_error sn 7 = Some ([mkSl 0 1 2; mkSl 4 0 2], []) /\                           (* CAT: a new array *)
+      nth 0 h [] = [x02; x01; x80; x76]
+  | HResStuck => False
+  end.
+Proof. vm_compute. repeat split; reflexivity. Qed.
 
 (** non-vacuity: a duplicate survives the transformation of its twin (the confirmed pre-repair defect:
     01 DUP 1 LSHIFT left 02 below) *)
